@@ -164,6 +164,9 @@ fn cube_cost(cubes: &HashSet<Cube>, and_cost: i64) -> i64 {
 }
 
 fn exec(ctx: &mut Ctx, ev: &Ev) {
+    if ev.op == "esop-dense" {
+        return exec_esop_dense(ctx, ev);
+    }
     if ev.op.ends_with("-dense") {
         // ints hold several triples here; see exec_dense
         return exec_dense(ctx, ev);
@@ -355,6 +358,134 @@ fn local_improvement(n: usize, form: &[Vec<Term>], fm: &[Mask], ac: i64, xc: i64
         }
     }
     None
+}
+
+/// ESOP: cost of a multi-output form (distinct cubes paid once, one XOR gate per extra cube of an output).
+fn esop_form_cost(form: &[Vec<Term>], ac: i64, xc: i64) -> i64 {
+    let mut used: HashSet<Term> = HashSet::new();
+    let mut xors = 0i64;
+    for out in form {
+        for t in out {
+            used.insert(*t);
+        }
+        xors += std::cmp::max(0, out.len() as i64 - 1);
+    }
+    used.iter().map(|t| ac * gates(t.lits)).sum::<i64>() + xc * xors
+}
+
+/// A strictly cheaper valid ESOP form one step away: up to two cubes of one output replaced by up to two cubes
+/// (any of the 3^n, so also cubes other outputs already pay for) with the same XOR.  A minimum-cost form has none.
+fn esop_local_improvement(n: usize, form: &[Vec<Term>], ac: i64, xc: i64) -> Option<(String, i64)> {
+    let base = esop_form_cost(form, ac, xc);
+    let all: Vec<Term> = all_cubes(n)
+        .iter()
+        .map(|c| Term { ecube: false, a: c.pos, b: c.neg, sat: sat_mask(n, |a| c.sat(a)), lits: c.lits() })
+        .collect();
+    for j in 0..form.len() {
+        let l = &form[j];
+        // sets S of one or two cubes of this output
+        let mut subsets: Vec<Vec<usize>> = (0..l.len()).map(|i| vec![i]).collect();
+        for i in 0..l.len() {
+            for k in i + 1..l.len() {
+                subsets.push(vec![i, k]);
+            }
+        }
+        for s in subsets {
+            let target = s.iter().fold(0 as Mask, |m, i| m ^ l[*i].sat);
+            let rest: Vec<Term> = l.iter().enumerate().filter(|(i, _)| !s.contains(i)).map(|(_, t)| *t).collect();
+            let mut try_with = |repl: &[Term]| -> Option<(String, i64)> {
+                let mut f2: Vec<Vec<Term>> = form.to_vec();
+                f2[j] = rest.clone();
+                f2[j].extend_from_slice(repl);
+                let c = esop_form_cost(&f2, ac, xc);
+                if c < base {
+                    Some((format!("in output {} replace {:?} by {:?}", j, s.iter().map(|i| l[*i]).collect::<Vec<_>>(), repl), c))
+                } else {
+                    None
+                }
+            };
+            if target == 0 {
+                if let Some(r) = try_with(&[]) {
+                    return Some(r);
+                }
+            }
+            for (x, a) in all.iter().enumerate() {
+                if a.sat == target {
+                    if let Some(r) = try_with(&[*a]) {
+                        return Some(r);
+                    }
+                }
+                for b in all.iter().skip(x + 1) {
+                    if a.sat ^ b.sat == target {
+                        if let Some(r) = try_with(&[*a, *b]) {
+                            return Some(r);
+                        }
+                    }
+                }
+            }
+        }
+    }
+    None
+}
+
+/// ESOP instances beyond the exact oracle (n = 4 with several outputs): validity, no cheaper form one step away,
+/// dominance across cost pairs.
+fn exec_esop_dense(ctx: &mut Ctx, ev: &Ev) {
+    let n = ev.n;
+    let fs: Vec<Lut> = ev.tabs.iter().map(|t| Lut::from_blocks(n, t)).collect();
+    let fm: Vec<Mask> = ev.tabs.iter().map(|t| fmask(n, t)).collect();
+    let pairs: Vec<(i64, i64)> = ev.ints.chunks(3).map(|c| (c[0] as i64, c[1] as i64)).collect();
+    ctx.event(&format!("esop-dense|n={}|outputs={}", n, fs.len()), ev, true);
+    let size = 1usize << n;
+    let desc = |t: &(i64, i64)| format!("esop-dense n={} functions={:?} costs(and={},xor={})", n, fs.iter().map(|f| f.to_string()).collect::<Vec<_>>(), t.0, t.1);
+    let mut forms: Vec<Vec<Vec<Term>>> = Vec::new();
+    for t in &pairs {
+        let got: Vec<Esop> = match guard(|| optimize_esop_mip(&fs, t.0 as i32, t.1 as i32)) {
+            Outcome::Returned(v) => v,
+            Outcome::Panicked(m) => {
+                ctx.violate("returns-a-form-per-function", ev, "panic", format!("{} panicked: {}", desc(t), m));
+                return;
+            }
+        };
+        if !ctx.check("returns-a-form-per-function", got.len() == fs.len(), ev, "count", || format!("{} returned {} forms", desc(t), got.len())) {
+            return;
+        }
+        let mut form: Vec<Vec<Term>> = Vec::new();
+        for (j, e) in got.iter().enumerate() {
+            let denotes = (0..size).all(|m| e.value(m) == ((fm[j] >> m) & 1 == 1));
+            if !ctx.check("denotes-function", denotes && e.num_vars() == n, ev, "denotes", || format!("{}: output {} is {} which is not the function", desc(t), j, e)) {
+                return;
+            }
+            let mut out: Vec<Term> = e
+                .cubes()
+                .iter()
+                .map(|c| {
+                    let m = CubeM::of(c);
+                    Term { ecube: false, a: m.pos, b: m.neg, sat: sat_mask(n, |a| m.sat(a)), lits: m.lits() }
+                })
+                .collect();
+            out.sort_by_key(|t| (t.a, t.b));
+            form.push(out);
+        }
+        ctx.checked("minimum-cost", 1);
+        if let Some((what, c)) = esop_local_improvement(n, &form, t.0, t.1) {
+            let base = esop_form_cost(&form, t.0, t.1);
+            ctx.violate("minimum-cost", ev, "local-improvement", format!("{}: the returned forms cost {} but a valid form of cost {} is one step away ({}): {:?}", desc(t), base, c, what,
+                got.iter().map(|e| e.to_string()).collect::<Vec<_>>()));
+        }
+        forms.push(form);
+    }
+    for (i, t) in pairs.iter().enumerate() {
+        let own = esop_form_cost(&forms[i], t.0, t.1);
+        for (k, other) in forms.iter().enumerate() {
+            let c = esop_form_cost(other, t.0, t.1);
+            ctx.checked("minimum-cost", 1);
+            if c < own {
+                ctx.violate("minimum-cost", ev, "dominated-by-the-answer-to-another-triple", format!(
+                    "{}: the returned forms cost {}, the forms returned for costs {:?} cost {} under these costs", desc(t), own, pairs[k], c));
+            }
+        }
+    }
 }
 
 /// Dense multi-output instances (beyond the reach of the exact oracle): the same instance under several cost
@@ -674,6 +805,37 @@ fn main() {
         }
         items.push(ev);
     }
+    // ESOP lists of n = 4 with 2..3 outputs (n = 3 with 3): XORs of a few minterms (far apart, so that one output is
+    // cheapest as the XOR of full minterms another output pays for), sparse and random functions
+    let edense = if thorough { 1500 } else { 12 };
+    for k in 0..edense {
+        let n = if k % 5 == 0 { 3 } else { 4 };
+        let outs = if n == 3 { 3 } else if thorough { 2 + k % 2 } else { 2 };
+        let size = 1u64 << n;
+        let mask = (1u64 << size) - 1;
+        let pool: Vec<u64> = (0..rng.range(2, 4)).map(|_| 1u64 << rng.below(size as usize)).collect();
+        let fs: Vec<u64> = (0..outs)
+            .map(|_| loop {
+                // sparse only: the parity MIP of a dense 4-input list can take minutes
+                let f = match rng.below(4) {
+                    0..=2 => (0..rng.range(1, 3)).fold(0u64, |f, _| f ^ *rng.pick(&pool)),
+                    _ => rng.next_u64() & rng.next_u64() & rng.next_u64() & rng.next_u64(),
+                } & mask;
+                if f != 0 {
+                    break f;
+                }
+            })
+            .collect();
+        let mut ev = Ev::new("esop-dense", "mip", n);
+        for _ in 0..2 {
+            let t = *rng.pick(&triples);
+            ev = ev.int64(t.0 as u64).int64(t.1 as u64).int64(0);
+        }
+        for f in &fs {
+            ev = ev.tab(&[*f]);
+        }
+        items.push(ev);
+    }
     rng.shuffle(&mut items);
     let per = 64usize;
     let shards = (items.len() + per - 1) / per;
@@ -699,6 +861,8 @@ fn main() {
         required.push(format!("{}|n=3|outputs=2", op));
         if op != "esop" {
             required.push(format!("{}-dense|n=4|outputs=3", op));
+        } else {
+            required.push("esop-dense|n=4|outputs=2".into());
         }
         if op != "esop" {
             required.push(format!("{}|n=3|outputs=3", op));
